@@ -1,7 +1,112 @@
-//! Network-level scenarios (server, connection). Filled in by net.rs.
+//! Network-level scenarios: the real server on the simulated runtime and TCP model, driven by
+//! scripted clients; and the connection-only scenario of C08.
 use serde::{Deserialize, Serialize};
+
+use crate::scn::{StoreCfg, Val};
+
+#[derive(Clone, Debug, Serialize, Deserialize, PartialEq)]
+pub struct NetParams {
+    pub capacity: usize,
+    pub max_delay_us: u64,
+    /// 0 one byte per read, 1 at most `mss` bytes, 2 everything arrived, 3 random per read
+    pub read_mode: u8,
+    pub mss: usize,
+    pub spurious_pm: u32,
+    pub accept_err_pm: u32,
+    pub backlog: usize,
+    pub write_chunk: usize,
+}
+
+impl Default for NetParams {
+    fn default() -> Self {
+        NetParams { capacity: 64 * 1024, max_delay_us: 0, read_mode: 2, mss: 1460, spurious_pm: 0, accept_err_pm: 0, backlog: 128, write_chunk: 0 }
+    }
+}
+
+#[derive(Clone, Debug, Serialize, Deserialize, PartialEq)]
+pub enum Req {
+    Set(usize, Val),
+    Get(usize),
+    Del(Vec<usize>),
+}
+
+#[derive(Clone, Debug, Serialize, Deserialize, PartialEq)]
+pub enum CStep {
+    /// queue a well-formed request
+    Send(Req),
+    /// queue raw bytes (hostile or partial input)
+    SendRaw(Vec<u8>),
+    /// pump until at most this many requests are unanswered
+    Await(usize),
+    /// pump until everything queued has been handed to the transport
+    Flush,
+    /// let simulated time pass (microseconds)
+    Pause(u64),
+    /// orderly close of the sending direction
+    HalfClose,
+    /// close the connection
+    Close,
+    /// abortive close
+    Reset,
+    /// keep reading until end of stream or reset
+    ReadToEof,
+    /// keep reading until end of stream, reset, or this many microseconds have passed
+    ReadFor(u64),
+    /// C15: make this connection's handler panic on its next command
+    ArmPanic,
+    /// C15: make the store fail this connection's next command
+    ArmStoreError,
+    /// wait until the harness signals that shutdown has been fired (C16)
+    WaitShutdown,
+}
+
+#[derive(Clone, Debug, Serialize, Deserialize, PartialEq)]
+pub struct ClientScript {
+    pub start_us: u64,
+    /// 0 whole buffer per write, 1 one byte per write, 2 random pieces of at most `chunk_n`
+    pub chunk_mode: u8,
+    pub chunk_n: usize,
+    pub chunk_pause_us: u64,
+    pub hostile: bool,
+    pub steps: Vec<CStep>,
+}
+
+#[derive(Clone, Debug, Serialize, Deserialize, PartialEq)]
+pub enum FrameSpec {
+    Simple(String),
+    Error(String),
+    Int(i64),
+    Bulk(Val),
+    BulkRaw(Vec<u8>),
+    Null,
+    Array(Vec<FrameSpec>),
+}
+
+#[derive(Clone, Debug, Serialize, Deserialize, PartialEq)]
+pub struct ConnScn {
+    pub frames: Vec<FrameSpec>,
+    /// None: the stream ends cleanly after the last frame; Some(n): it ends n bytes before the
+    /// end of the encoding (inside a frame)
+    pub cut_before_end: Option<usize>,
+    /// the writer side stalls after this many bytes until the reader is quiescent (prefix probe)
+    pub stall_at: Option<usize>,
+}
 
 #[derive(Clone, Debug, Serialize, Deserialize, PartialEq)]
 pub struct NetScn {
-    pub placeholder: u32,
+    pub cfg: StoreCfg,
+    pub net: NetParams,
+    pub workers: usize,
+    pub max_conn: usize,
+    pub keys: Vec<String>,
+    pub clients: Vec<ClientScript>,
+    /// fire the shutdown signal this many microseconds after the clients were started
+    pub shutdown_us: Option<u64>,
+    /// fire the shutdown signal at this global scheduling step instead (C16)
+    pub shutdown_step: Option<u64>,
+    /// a harness thread calling verif_merge in a loop this many times
+    pub merges: u32,
+    pub conn: Option<ConnScn>,
+    pub min_backoff_ms: u64,
+    pub max_backoff_ms: u64,
 }
